@@ -238,7 +238,12 @@ def check(run, repo):
         'beyond the breakpoints equals slope*x+intercept of the containing piece divided by RT, the intercepts being '
         'the checker\'s own continuity recurrence starting at 0 (only the documented attributes intervals and slopes '
         'are read), independent of T; S, Cv, Cp are 0; to_dict/from_dict rebuilds the same '
-        'lists.')
+        'lists. The model is also evaluated before every edit of a sequence (nothing an evaluation leaves behind may '
+        'survive an edit; H, F, G and the reloaded copy likewise: evaluated, edited, evaluated); the model reached by '
+        'every sequence of up to 2 operations (breakpoints repeated by an insert onto a breakpoint included) is '
+        'serialised and reloaded and must list the reference pairs and evaluate to the reference beyond the last '
+        'breakpoint; two models are alive in one interpreter, built with the list arguments omitted when the '
+        'constructor has defaults for them: editing one leaves the other and a model built afterwards as they were.')
     run.assumptions = ['np.argmax of a boolean array is the index of the first True and 0 when there is none']
     run.undecided = ['numeric evaluation with floating-point breakpoints']
     ci = repo.cls(COV)
